@@ -64,7 +64,7 @@ fn one_run<K: KeyLike>(case: &Case, arm_at: i64, st: &mut E4Stats) -> (i64, Vec<
                 if let Op::Resize(n) = op {
                     // O2: after a panic has orphaned a node, a shrinking resize can spin
                     // forever (a hang, not a memory hazard): excluded by construction
-                    if (*n as usize) < s.cap() {
+                    if resize_target(*n) < s.cap() {
                         st.excluded_resize_after_panic += 1;
                         continue;
                     }
